@@ -27,6 +27,9 @@ def main (args : List String) : IO UInt32 := do
   | ["spec"] =>
     out.putStrLn Driver.specJson
     return 0
+  | ["views"] =>
+    out.putStrLn Driver.viewsJson
+    return 0
   | _ =>
     loop (← IO.getStdin) out Driver.State.empty
     return 0
